@@ -9,13 +9,16 @@ Ltac Zify.zify_post_hook ::= Z.div_mod_to_equations.
 (* A. writeJSONString                                                                     *)
 (* ------------------------------------------------------------------------------------ *)
 
+Lemma frev_rev : forall l, frev l = rev l.
+Proof. intros. unfold frev. now rewrite rev_append_rev, app_nil_r. Qed.
+
 Lemma wjs_loop_flat : forall s rseg rout,
   wjs_loop s rseg rout = rev rout ++ rev rseg ++ flat_map enc_byte s.
 Proof.
   induction s as [|c r IH]; intros rseg rout; cbn [wjs_loop flat_map].
-  - now rewrite rev_app_distr, app_nil_r.
+  - now rewrite frev_rev, rev_app_distr, app_nil_r.
   - unfold enc_byte at 1. destruct (needs_escape c).
-    + rewrite IH. cbn [rev app]. rewrite !rev_app_distr, rev_involutive. now rewrite <- !app_assoc.
+    + rewrite IH, frev_rev. cbn [rev app]. rewrite !rev_app_distr, rev_involutive. now rewrite <- !app_assoc.
     + rewrite IH. cbn [rev]. now rewrite <- !app_assoc.
 Qed.
 
@@ -50,7 +53,7 @@ Lemma jscan_flat : forall s acc r,
   jscan JNormal acc (flat_map enc_byte s ++ 34 :: r) = Some (rev acc ++ s, r).
 Proof.
   induction s as [|c s IH]; intros acc r; cbn [flat_map List.app].
-  - cbn [jscan]. change (34 =? 34) with true. cbv iota. now rewrite app_nil_r.
+  - cbn [jscan]. change (34 =? 34) with true. cbv iota. now rewrite frev_rev, app_nil_r.
   - rewrite <- app_assoc. unfold enc_byte at 1. destruct (needs_escape c) eqn:E.
     + rewrite jscan_escape by exact E. rewrite IH. cbn [rev]. now rewrite <- app_assoc.
     + change ([c] ++ flat_map enc_byte s ++ 34 :: r) with (c :: flat_map enc_byte s ++ 34 :: r).
@@ -592,4 +595,99 @@ Proof.
     change ((44 :: join_comma (map write_json_string (s2 :: ss'))) ++ rest)
       with (44 :: (join_comma (map write_json_string (s2 :: ss')) ++ rest)).
     rewrite IH. reflexivity.
+Qed.
+
+(* ------------------------------------------------------------------------------------ *)
+(* M. the published type name decodes (client-side table) to the wire encoding            *)
+(* ------------------------------------------------------------------------------------ *)
+
+Lemma class_of_name_type_name : forall t, class_of_name (type_name t) = wire_class t.
+Proof.
+  destruct t; try reflexivity.
+  - destruct u; reflexivity.
+  - destruct k; reflexivity.
+Qed.
+
+(* ------------------------------------------------------------------------------------ *)
+(* N. BLOB cells as DuckDB's text form (the proposed writeJSONBlob)                       *)
+(* ------------------------------------------------------------------------------------ *)
+
+Lemma hex_upper_bounds : forall b, b < 16 ->
+  (48 <= hex_upper b <= 57 \/ 65 <= hex_upper b <= 70) /\ hex_upper_val (hex_upper b) = Some b.
+Proof.
+  intros b H. apply N.lt_le_pred in H. cbn in H.
+  assert (C : In b (map N.of_nat (seq 0 16))).
+  { replace b with (N.of_nat (N.to_nat b)) by lia. apply in_map, in_seq. lia. }
+  cbn in C. repeat (destruct C as [<-|C]; [split; [unfold hex_upper; cbn; lia|vm_compute; reflexivity]|]). contradiction.
+Qed.
+
+Lemma enc_plain : forall c, 32 <= c -> c <> 34 -> c <> 92 -> enc_byte c = [c].
+Proof.
+  intros c H1 H2 H3. unfold enc_byte, needs_escape.
+  destruct (c =? 34) eqn:A; [lia|]. destruct (c =? 92) eqn:B; [lia|]. destruct (c <? 32) eqn:C; [lia|]. reflexivity.
+Qed.
+
+Lemma blob_json_is_json_of_text : forall c, c < 256 ->
+  flat_map enc_byte (blob_text_byte c) = blob_json_byte c.
+Proof.
+  intros c Hc. unfold blob_text_byte, blob_json_byte. destruct (blob_regular c) eqn:R.
+  - cbn [flat_map]. rewrite app_nil_r. unfold blob_regular in R. apply enc_plain; lia.
+  - destruct (hex_upper_bounds (c / 16)) as [B1 _]; [lia|].
+    destruct (hex_upper_bounds (c mod 16)) as [B2 _]; [lia|].
+    cbn [flat_map]. rewrite app_nil_r.
+    change (enc_byte 92) with [92;92]. change (enc_byte 120) with [120].
+    rewrite (enc_plain (hex_upper (c / 16))), (enc_plain (hex_upper (c mod 16))) by lia. reflexivity.
+Qed.
+
+Lemma write_json_blob_eq : forall b, Forall (fun x => x < 256) b ->
+  write_json_blob b = write_json_string (blob_text b).
+Proof.
+  intros b F. rewrite write_json_string_flat. unfold write_json_blob, blob_text. f_equal. f_equal.
+  induction F as [|c l Hc F IH]; [reflexivity|]. cbn [flat_map].
+  rewrite flat_map_app, blob_json_is_json_of_text, IH by exact Hc. reflexivity.
+Qed.
+
+Lemma blob_text_ascii : forall b, Forall (fun x => x < 256) b -> Forall (fun x => 32 <= x < 128) (blob_text b).
+Proof.
+  intros b F. unfold blob_text. induction F as [|c l Hc F IH]; [constructor|]. cbn [flat_map].
+  apply Forall_app. split; [|exact IH]. unfold blob_text_byte. destruct (blob_regular c) eqn:R.
+  - constructor; [unfold blob_regular in R; lia|constructor].
+  - destruct (hex_upper_bounds (c / 16)) as [B1 _]; [lia|].
+    destruct (hex_upper_bounds (c mod 16)) as [B2 _]; [lia|].
+    repeat constructor; lia.
+Qed.
+
+Lemma utf8_valid_ascii : forall l, Forall (fun x => 32 <= x < 128) l -> utf8_valid l = true.
+Proof.
+  intros l F. unfold utf8_valid. destruct l as [|x l']; [reflexivity|].
+  rewrite fold_ascii; [reflexivity|exact I|exact F|congruence].
+Qed.
+
+Lemma blob_scan_text : forall b acc, Forall (fun x => x < 256) b ->
+  blob_scan BNormal acc (blob_text b) = Some (rev acc ++ b).
+Proof.
+  intros b acc F. revert acc. unfold blob_text.
+  induction F as [|c l Hc F IH]; intros acc.
+  - cbn. now rewrite frev_rev, app_nil_r.
+  - cbn [flat_map]. unfold blob_text_byte at 1. destruct (blob_regular c) eqn:R.
+    + cbn [List.app blob_scan]. assert (c =? 92 = false) by (unfold blob_regular in R; lia).
+      rewrite H, R, IH. cbn [rev]. now rewrite <- app_assoc.
+    + destruct (hex_upper_bounds (c / 16)) as [_ V1]; [lia|].
+      destruct (hex_upper_bounds (c mod 16)) as [_ V2]; [lia|].
+      cbn [List.app blob_scan]. change (92 =? 92) with true. change (120 =? 120) with true. cbv iota.
+      rewrite V1, V2, IH. cbn [rev]. rewrite <- app_assoc. cbn [List.app].
+      replace (c / 16 * 16 + c mod 16) with c by lia. reflexivity.
+Qed.
+
+Lemma json_blob_text_cell : forall b t, Forall (fun x => x < 256) b ->
+  json_scan (json_cell_m BlobDuckText TBin (VBytes b) ++ t) = Some (blob_text b, t)
+  /\ blob_text_decode (blob_text b) = Some b
+  /\ utf8_valid (json_cell_m BlobDuckText TBin (VBytes b)) = true
+  /\ no_ctl (json_cell_m BlobDuckText TBin (VBytes b)) = true.
+Proof.
+  intros b t F. cbn [json_cell_m]. rewrite write_json_blob_eq by exact F. repeat split.
+  - apply json_string_roundtrip.
+  - unfold blob_text_decode. now rewrite blob_scan_text.
+  - rewrite utf8_valid_json_string. apply utf8_valid_ascii, blob_text_ascii, F.
+  - apply no_ctl_json_string.
 Qed.
